@@ -30,6 +30,7 @@ type Env struct {
 	calleeGhost map[string]Value
 	pos         token.Pos
 	lemma       bool
+	callPre     *State // state just before the call of the event being handled
 }
 
 func (x *Exec) newEnv(st *State) *Env {
@@ -618,6 +619,12 @@ func (e *Env) evalCall(n *ast.CallExpr) Value {
 		inner := e.sub(e.oldState)
 		inner.atEntry = !e.callee
 		return inner.eval(n.Args[0])
+	case "atcall":
+		// atcall(e): value of e just before the call (in `on call` handlers)
+		if e.callPre == nil {
+			return e.eval(n.Args[0])
+		}
+		return e.sub(e.callPre).eval(n.Args[0])
 	case "pre":
 		if e.loop == nil {
 			return e.fail("pre() is only available in loop invariants")
@@ -750,6 +757,10 @@ func (e *Env) evalCall(n *ast.CallExpr) Value {
 			return scalar(it, mkIte(mkCmp("<", a, b), a, b))
 		}
 		return scalar(it, mkIte(mkCmp(">", a, b), a, b))
+	case "addr":
+		// addr(lvalue): the address of a field / element / variable
+		p := e.addrOf(n.Args[0])
+		return e.x.ptrValuePure(types.NewPointer(p.Sub), p)
 	case "emptyintmap":
 		return Value{T: intmapType, L: []Term{constArray(arrSortK(sInt, sInt), tZero)}}
 	case "mapput":
